@@ -15,6 +15,7 @@ from .rules import density as RDn
 from .rules import omega_tab as RO
 from .rules import calculate as RCa
 from .rules import prism as RP2
+from .rules import omega as ROm
 
 PROPS = {}
 
@@ -209,6 +210,26 @@ prop('C01',
      'that a solve converges, the size of the residual, floating-point error; the bound "discrepancy <= residual x closure '
      'slope" is a numerical statement about scipy.optimize.root output.',
      ['the root finder returns result.x as its solution (scipy, trusted)'])
+
+
+prop('C11',
+     [('R00.dyn', RG.rule_no_dynamic), ('R11.d', ROm.rule_closed_forms), ('R11.d', ROm.rule_ring),
+      ('R11.d', ROm.rule_trivial), ('R11.a', ROm.rule_aliases), ('R11.m', ROm.rule_koyama_multiplicity),
+      ('R11.k', ROm.rule_koyama_kernel), ('R11.v', ROm.rule_koyama_rejection), ('R11.e', ROm.rule_nfjc),
+      ('R11.l', ROm.rule_library_names)],
+     'Static analysis of pyPRISM/omega: Gaussian and FreelyJointedChain terms are extracted with a symbolic chain length '
+     '(E^(N+1) as a symbolic power) and compared with the closed form, whose equality with the defining pair sum '
+     '(1/N) sum_ij E^|i-j| is certified by a 4-step induction checked by the normaliser on every run, plus explicit pair '
+     'sums for N=1..6; GaussianRing: the summation loop becomes a Sum term (symbolic N) and is unrolled for N=1..6 '
+     'against the ring pair sum; DiscreteKoyama: the pair loop is instantiated from its headers for N=2..8 (thorough: 64) '
+     'with the kernel kept symbolic, which decides the multiplicity N-n of each separation and hence the k->0 sum rule; '
+     'kernel shape sin(Bk)/(Bk)exp(-Ak^2); every constructing path of DiscreteKoyama.__init__ carries l>sigma/2 and '
+     'lp>=lp_min (paths enumerated, refusals are ValueError); scalar-only math.* never fed the ndarray that '
+     'scipy.optimize.root hands to its callback; NFJC integrates over the x axis only; every numpy/scipy/math name used '
+     'exists in the pinned libraries; aliases.',
+     'finiteness at the small k of a real grid (catastrophic cancellation in (1-E)^2 is a floating-point fact), NFJC '
+     'quadrature accuracy and its nan when k hits an x node, the Koyama moment formulas r2/r4 (no reference offline).',
+     ['|E| <= 1 for E=exp(-x^2) and E=sin(x)/x; the bounds omega<=N, omega->N, omega->1 follow from the certified sum form'])
 
 
 def run(pid, tier, repo, seed=0, replay=None, write=True):
